@@ -541,6 +541,9 @@ class RedfieldRelaxationTensor(RelaxationTensor):
         """Initializes the Redfield tensor with values 
         
         """
+        # the data calculated below are not secular, whatever was done
+        # to the data they replace
+        self.is_secular = False
         with energy_units("int"):
             self._implementation(self.Hamiltonian,
                                  self.SystemBathInteraction)
